@@ -58,6 +58,7 @@ def descriptor(rec, k):
         "literal_binop_raises": "constop" in o["fl"],
         "one_char_literal_ordered_against_bint": "chrbint" in o["fl"],
         "empty_display_times_expression": "emptymul" in o["fl"],
+        "str_literal_iteration_var_against_int": "ucs4" in o["fl"],
         "has_class": "class" in tags,
         "has_closure": any(t.startswith("def:h") or t == "lambda" for t in tags),
     }
@@ -102,6 +103,10 @@ def cy_error_class(msg):
         return "index-out-of-bounds"
     if "no starred arg found when splitting starred assignment" in msg or "Compiler crash in PostParse" in msg:
         return "crash-starred-assignment"
+    if "is_pylist_type" in msg or "Compiler crash in EarlyReplaceBuiltinCalls" in msg:
+        return "crash-early-replace-builtin-calls"
+    if "Incompatible types in conditional expression" in msg:
+        return "incompatible-conditional-types"
     if "Attempting to index non-array type" in msg:
         return "index-non-array"
     if re.search(r"local variable '\w+' referenced before assignment", msg):
@@ -347,7 +352,8 @@ def run(tier, seed):
                 desc.update({"expect": "compiles", "site": "", "expect_type": "", "stale_name_operand": False,
                              "class_scope_skipped": False, "class_bound_name_global_lookup": False,
                              "minmax_arg_order_observable": False, "literal_binop_raises": False,
-                             "one_char_literal_ordered_against_bint": False, "empty_display_times_expression": False})
+                             "one_char_literal_ordered_against_bint": False, "empty_display_times_expression": False,
+                             "str_literal_iteration_var_against_int": False})
                 desc.update(lp.static_features(r["prog"]))
                 rep.disagree(desc, oc, {"source": r["source"], "stage": stage, "message": msg})
                 continue
